@@ -422,6 +422,13 @@ func (tt *TermTable) bin(op Op, a, b *Term) *Term {
 			return a
 		}
 	case OpBOr:
+		// (x >> c) << c | x & (2^c-1)  ==  x
+		if r := tt.splitJoin(a, b); r != nil {
+			return r
+		}
+		if r := tt.splitJoin(b, a); r != nil {
+			return r
+		}
 		if a.op == OpConst {
 			a, b = b, a
 		}
@@ -954,3 +961,107 @@ func b2u(b bool) uint64 {
 }
 
 var _ = bits.Len
+
+// MapLeaves rewrites an index term that is a tree of ite nodes over constant
+// leaves (possibly under zero extensions) by applying f to every leaf. ok is
+// false when idx has a different shape or too many leaves.
+func (tt *TermTable) MapLeaves(idx *Term, f func(uint64) *Term, budget *int) (*Term, bool) {
+	switch idx.op {
+	case OpConst:
+		if idx.w > 64 {
+			return nil, false
+		}
+		*budget--
+		if *budget < 0 {
+			return nil, false
+		}
+		return f(idx.c), true
+	case OpZext:
+		return tt.MapLeaves(idx.a[0], f, budget)
+	case OpIte:
+		a, ok := tt.MapLeaves(idx.a[1], f, budget)
+		if !ok {
+			return nil, false
+		}
+		b, ok := tt.MapLeaves(idx.a[2], f, budget)
+		if !ok {
+			return nil, false
+		}
+		return tt.Ite(idx.a[0], a, b), true
+	}
+	return nil, false
+}
+
+func (tt *TermTable) splitJoin(hi, lo *Term) *Term {
+	if hi.op != OpShl || lo.op != OpBAnd || hi.a[1].op != OpConst {
+		return nil
+	}
+	c := hi.a[1].c
+	in := hi.a[0]
+	if in.op != OpLshr || in.a[1].op != OpConst || in.a[1].c != c {
+		return nil
+	}
+	x := in.a[0]
+	var m *Term
+	if lo.a[0] == x {
+		m = lo.a[1]
+	} else if lo.a[1] == x {
+		m = lo.a[0]
+	} else {
+		return nil
+	}
+	if m.op != OpConst || c >= 64 || m.c != (uint64(1)<<c)-1 {
+		return nil
+	}
+	return x
+}
+
+// IdentityChain recognises ite(x==k1,k1, ite(x==k2,k2, ... d)) where the
+// tested constants together with the default d cover every value x can take;
+// such a chain equals x.
+func (tt *TermTable) IdentityChain(t *Term) *Term {
+	if t.op != OpIte || t.w == 0 || t.w > 64 {
+		return t
+	}
+	var x *Term
+	seen := map[uint64]bool{}
+	cur := t
+	for cur.op == OpIte {
+		g := cur.a[0]
+		if g.op != OpEq {
+			return t
+		}
+		var v, k *Term
+		if g.a[0].op == OpConst {
+			k, v = g.a[0], g.a[1]
+		} else if g.a[1].op == OpConst {
+			k, v = g.a[1], g.a[0]
+		} else {
+			return t
+		}
+		if x == nil {
+			x = v
+		} else if x != v {
+			return t
+		}
+		if cur.a[1].op != OpConst || cur.a[1].c != k.c {
+			return t
+		}
+		seen[k.c] = true
+		cur = cur.a[2]
+	}
+	if cur.op != OpConst || x == nil || x.w > t.w {
+		return t
+	}
+	seen[cur.c] = true
+	ub := tt.ub(x, 0)
+	if ub > 4096 {
+		return t
+	}
+	for v := uint64(0); v <= ub; v++ {
+		if !seen[v] {
+			return t
+		}
+	}
+	return tt.Zext(x, t.w)
+}
